@@ -249,9 +249,11 @@ def base_library():
         "layers": [{"name": "Fachada", "mats": ["Ladrillo", "Aislante", "Camara"], "ths": [0.2, 0.05, 0.02]},
                    {"name": "Forjado", "mats": ["Hormigon", "Aislante"], "ths": [0.25, 0.04]},
                    {"name": "Tabique", "mats": ["Ladrillo"], "ths": [0.1]}],
-        "glasses": [{"name": "Doble", "u": 2.8, "sc": 0.8}],
-        "frames": [{"name": "MarcoPVC", "u": 2.2, "abs": 0.7, "width": 0.1}],
-        "gaps": [{"name": "HuecoDoble", "glass": "Doble", "frame": "MarcoPVC", "pct": 25, "inf": 27}],
+        # a glazed window, and an opaque door (100 % frame) with a glazing and a frame of its own
+        "glasses": [{"name": "Doble", "u": 2.8, "sc": 0.8}, {"name": "VidrioPuerta", "u": 5.7, "sc": 0.9}],
+        "frames": [{"name": "MarcoPVC", "u": 2.2, "abs": 0.7, "width": 0.1}, {"name": "MarcoPuerta", "u": 2.0, "abs": 0.6, "width": 0.08}],
+        "gaps": [{"name": "HuecoDoble", "glass": "Doble", "frame": "MarcoPVC", "pct": 25, "inf": 27},
+                 {"name": "PuertaOpaca", "glass": "VidrioPuerta", "frame": "MarcoPuerta", "pct": 100, "inf": 60}],
         "days": [{"name": "DiaOcupado", "vals": [0, 0, 0, 0, 0, 0, 0, 0.5, 1, 1, 1, 1, 1, 0.5, 1, 1, 1, 1, 0.5, 0, 0, 0, 0, 0]},
                  {"name": "DiaLibre", "vals": [0]}, {"name": "DiaTemp", "vals": [21]}],
         "weeks": [{"name": "SemanaLab", "days": ["DiaOcupado"] * 5 + ["DiaLibre"] * 2}, {"name": "SemanaTemp", "days": ["DiaTemp"]}],
@@ -291,7 +293,7 @@ def random_project(rng, nspaces=None, with_geometry_walls=False, space_offsets=F
     for f in p["frames"]:
         f["u"], f["abs"], f["width"] = r3(1.0, 5.9), r3(0.2, 0.95), r3(0.03, 0.19)
     for g in p["gaps"]:
-        g["pct"], g["inf"] = float(rng.randint(5, 60)), float(rng.choice([3, 9, 27, 50, 100]))
+        g["pct"], g["inf"] = (100.0 if g["name"] == "PuertaOpaca" else float(rng.choice([0, 5, 25, 60]))), float(rng.choice([3, 9, 27, 50, 100]))
         if rng.random() < 0.6:
             g["du"] = float(rng.randint(1, 30))
         if rng.random() < 0.6:
@@ -331,7 +333,7 @@ def random_project(rng, nspaces=None, with_geometry_walls=False, space_offsets=F
                     w["abs"] = round(rng.uniform(0.2, 0.9), 2)
                 edge = ((verts[(vi + 1) % len(verts)][0] - verts[vi][0]) ** 2 + (verts[(vi + 1) % len(verts)][1] - verts[vi][1]) ** 2) ** 0.5
                 if kind == "EXTERIOR-WALL" and edge >= 3 and rng.random() < 0.6:
-                    v = {"name": w["name"] + "_V1", "gap": "HuecoDoble", "x": 0.5, "y": 1.0, "w": rng.choice([1.0, 1.5, 2.0]), "h": rng.choice([1.0, 1.25]),
+                    v = {"name": w["name"] + "_V1", "gap": rng.choice(["HuecoDoble", "HuecoDoble", "PuertaOpaca"]), "x": 0.5, "y": 1.0, "w": rng.choice([1.0, 1.5, 2.0]), "h": rng.choice([1.0, 1.25]),
                          "setback": rng.choice([0, 0.2])}
                     # shading devices of the window: every figure different, so that a value read from the wrong attribute shows
                     r2 = lambda lo, hi: round(rng.uniform(lo, hi), 2)
